@@ -2,6 +2,8 @@ package an
 
 import (
 	"go/types"
+	"sort"
+	"strings"
 
 	"golang.org/x/tools/go/ssa"
 )
@@ -274,4 +276,151 @@ func globalErrorInitialised(g *ssa.Global) bool {
 	}
 	globalErrCache[g] = res
 	return res
+}
+
+// FindPathCorr is FindPath with branch correlation: the search remembers the comparisons
+// with constants (p == c, p != c) established by the edges taken so far and does not take an
+// edge that contradicts one of them — `if a && x {..}; if !a && y {..}` has no path on which
+// a is first false and then true.  What was remembered is forgotten at every instruction that
+// could change memory (stores, map updates, calls other than len/cap, sends, go, defer), so
+// a test repeated after such an instruction is not correlated with the earlier one.
+func FindPathCorr(q PathQuery) *Witness {
+	type state struct {
+		b     *ssa.BasicBlock
+		idx   int
+		atoms []Atom
+		trail []*ssa.BasicBlock
+	}
+	if len(q.Fn.Blocks) == 0 {
+		return nil
+	}
+	var start state
+	switch {
+	case q.After != nil:
+		b := q.After.Block()
+		idx := 0
+		for i, in := range b.Instrs {
+			if in == q.After {
+				idx = i + 1
+			}
+		}
+		start = state{b: b, idx: idx}
+	case q.StartBlock != nil:
+		start = state{b: q.StartBlock, atoms: constAtoms(FactsAtBlock(q.StartBlock))}
+	default:
+		start = state{b: q.Fn.Blocks[0]}
+	}
+	start.trail = []*ssa.BasicBlock{start.b}
+	keyOf := func(s state) string {
+		var ks []string
+		for _, a := range s.atoms {
+			ks = append(ks, a.String())
+		}
+		sort.Strings(ks)
+		return itoa(s.b.Index) + ":" + itoa(s.idx) + ":" + strings.Join(ks, ";")
+	}
+	seen := map[string]bool{}
+	stack := []state{start}
+	steps := 0
+	for len(stack) > 0 {
+		st := stack[len(stack)-1]
+		stack = stack[:len(stack)-1]
+		k := keyOf(st)
+		if seen[k] {
+			continue
+		}
+		seen[k] = true
+		if steps++; steps > 20000 {
+			return FindPath(q) // give up on correlation rather than on the answer
+		}
+		cut := false
+		atoms := st.atoms
+		for i := st.idx; i < len(st.b.Instrs); i++ {
+			in := st.b.Instrs[i]
+			if q.Stop != nil && q.Stop(in) {
+				cut = true
+				break
+			}
+			if q.Target != nil && q.Target(in) {
+				return &Witness{Target: in, Trail: st.trail}
+			}
+			switch x := in.(type) {
+			case *ssa.Store, *ssa.MapUpdate, *ssa.Send, *ssa.Go, *ssa.Defer:
+				atoms = nil
+			case *ssa.Call:
+				if b, ok := x.Call.Value.(*ssa.Builtin); !ok || (b.Name() != "len" && b.Name() != "cap") {
+					atoms = nil
+				}
+			}
+		}
+		if cut {
+			continue
+		}
+		for _, s := range LiveSuccs(st.b) {
+			si := 0
+			for k, x := range st.b.Succs {
+				if x == s {
+					si = k
+				}
+			}
+			if q.PruneEdge != nil && q.PruneEdge(st.b, si) {
+				continue
+			}
+			next := atoms
+			if ifi, ok := st.b.Instrs[len(st.b.Instrs)-1].(*ssa.If); ok && len(st.b.Succs) == 2 {
+				edge := constAtoms(CondAtoms(ifi.Cond, si == 0))
+				if contradict(atoms, edge) {
+					continue
+				}
+				next = append(append([]Atom(nil), atoms...), edge...)
+			}
+			stack = append(stack, state{b: s, atoms: next, trail: append(append([]*ssa.BasicBlock(nil), st.trail...), s)})
+		}
+	}
+	return nil
+}
+
+// constAtoms keeps the comparisons of an access path with a constant.
+func constAtoms(as []Atom) []Atom {
+	var out []Atom
+	for _, a := range as {
+		if a.Op != "==" && a.Op != "!=" {
+			continue
+		}
+		if a.R == "true" || a.R == "false" || a.R == "nil" || isIntLit(a.R) || strings.HasPrefix(a.R, "\"") {
+			if !strings.Contains(a.L, "(") { // results of calls are not stable values
+				out = append(out, a)
+			}
+		}
+	}
+	return out
+}
+
+func isIntLit(s string) bool {
+	if s == "" {
+		return false
+	}
+	for i, r := range s {
+		if (r < '0' || r > '9') && !(i == 0 && r == '-') {
+			return false
+		}
+	}
+	return true
+}
+
+func contradict(have, edge []Atom) bool {
+	for _, a := range have {
+		for _, e := range edge {
+			if a.L != e.L {
+				continue
+			}
+			if a.R == e.R && a.Op != e.Op {
+				return true
+			}
+			if a.R != e.R && a.Op == "==" && e.Op == "==" {
+				return true
+			}
+		}
+	}
+	return false
 }
